@@ -13,6 +13,7 @@ import Scico.Proofs.OpAlgPlain
 import Scico.Proofs.OpAlgNonlin
 import Scico.Proofs.OpAlgFreeze
 import Scico.Proofs.OpAlgRep
+import Scico.Proofs.OpAlgConv
 
 namespace Scico.Props.C05
 open Scico.OpAlg Scico.DType
@@ -155,6 +156,54 @@ theorem C05_drep_blocks (lin : Bool) (o : Obj K) (N : Nat) (ia : Int) (oa : Opti
   · intro hl y k j hk hj
     rw [had hl y]
     exact vgather_block N _ _ o.n hnA hpin _ k j hk hj
+
+/-- **`Convolve` closed forms (operands of the same class).**  `A ± B` is accepted iff input length,
+    output length, mode and filter length agree, and then convolves with `h_A ± h_B` — which is the
+    pointwise `A(x) ± B(x)`; `c·A` / `A/c` are accepted iff `c` is scalar-equivalent and convolve with
+    `h·c` / `h/c` — which is `c·A(x)` / `A(x)/c`; declared dtypes by `result_type`.  (`convEval` is the model
+    of `jax.scipy.signal.convolve` of engine LinOps, all three modes.) -/
+theorem C05_convolve_arith (a b : ConvOp K) (c : Scal K) (sub : Bool) :
+    (((∃ r, ConvOp.addSub sub a b = .ok r) ↔ (a.n = b.n ∧ a.outLen = b.outLen ∧ a.mode = b.mode ∧ a.k = b.k))
+      ∧ ∀ r, ConvOp.addSub sub a b = .ok r → r.n = a.n ∧ r.k = a.k ∧ r.mode = a.mode
+          ∧ r.inDt = resultType a.inDt b.inDt ∧ r.hDt = resultType a.hDt b.hDt
+          ∧ ∀ x i, r.eval x i = pm sub (a.eval x i) (b.eval x i))
+    ∧ ((∃ r, a.smul c = .ok r) ↔ c.kind.isScalarEquiv = true)
+    ∧ ((∃ r, a.sdiv c = .ok r) ↔ c.kind.isScalarEquiv = true)
+    ∧ (∀ r, a.smul c = .ok r → r.inDt = resultTypeS a.inDt c.kind.sk ∧ ∀ x i, r.eval x i = c.val * a.eval x i)
+    ∧ (∀ r, a.sdiv c = .ok r → r.inDt = resultTypeS a.inDt c.kind.sk ∧ ∀ x i, r.eval x i = a.eval x i / c.val) := by
+  obtain ⟨h1, h2⟩ := ConvOp.addSub_spec sub a b
+  obtain ⟨s1, s2, s3, s4⟩ := ConvOp.scal_spec a c
+  refine ⟨⟨h1, fun r hr => ?_⟩, s1, s2, fun r hr => ?_, fun r hr => ?_⟩
+  · obtain ⟨q1, q2, q3, _, q5, q6, q7⟩ := h2 r hr
+    exact ⟨q1, q2, q3, q5, q6, q7⟩
+  · obtain ⟨_, _, _, q4, _, q6⟩ := s3 r hr
+    exact ⟨q4, q6⟩
+  · obtain ⟨_, _, _, q4, _, q6⟩ := s4 r hr
+    exact ⟨q4, q6⟩
+
+/-- **`CircularConvolve` closed forms.**  `CircularConvolve` evaluates `ifftn(h_dft · fftn(x))`
+    (`circNdSpecEval`, any number of axes, any spectrum); the operators built from the spectra
+    `H_A ± H_B`, `H·c`, `H/c` are `A ± B`, `c·A`, `A/c`. -/
+theorem C05_circconv_arith (dims : List Nat) (ws wis : List K) (s c : K) (HA HB x : Scico.LinOps.V K) (p : Nat) :
+    Scico.LinOps.circNdSpecEval dims ws wis s (fun f => HA f + HB f) x p
+        = Scico.LinOps.circNdSpecEval dims ws wis s HA x p + Scico.LinOps.circNdSpecEval dims ws wis s HB x p
+    ∧ Scico.LinOps.circNdSpecEval dims ws wis s (fun f => HA f - HB f) x p
+        = Scico.LinOps.circNdSpecEval dims ws wis s HA x p - Scico.LinOps.circNdSpecEval dims ws wis s HB x p
+    ∧ Scico.LinOps.circNdSpecEval dims ws wis s (fun f => HA f * c) x p
+        = c * Scico.LinOps.circNdSpecEval dims ws wis s HA x p
+    ∧ Scico.LinOps.circNdSpecEval dims ws wis s (fun f => HA f / c) x p
+        = Scico.LinOps.circNdSpecEval dims ws wis s HA x p / c := by
+  have L := fun c1 c2 H2 => circNdSpec_lin dims ws wis s c1 c2 HA H2 x p
+  refine ⟨?_, ?_, ?_, ?_⟩
+  · have := L 1 1 HB; simp only [one_mul] at this; exact this
+  · have := L 1 (-1) HB
+    simp only [one_mul, neg_one_mul, ← sub_eq_add_neg] at this; exact this
+  · have := L c 0 HA
+    simp only [zero_mul, add_zero] at this
+    rw [← this]; congr 1; funext f; ring
+  · have := L c⁻¹ 0 HA
+    simp only [zero_mul, add_zero] at this
+    rw [div_eq_mul_inv, mul_comm, ← this]; congr 1; funext f; rw [div_eq_mul_inv, mul_comm]
 
 /-- the declared `matrix_shape` is the shape of the denoted matrix, and a linear expression is
     always built as a `LinearOperator` -/
@@ -343,6 +392,13 @@ def exN : LExpr ℚ :=
 example : ¬ Lin exN := by simp [exN, Lin]
 example : PlainDiagProducts exN := by simp [exN, exM, exD, PlainDiagProducts]
 example : ∃ m, infer exN = .ok m ∧ m.cls = .op := ⟨_, rfl, rfl⟩
+
+/-- two `Convolve` operators with filters of length 2 on inputs of length 3 can be added in every mode;
+    different modes are rejected -/
+def cvA : ConvOp ℚ := ⟨fun m => [1, 2].getD m 0, 2, 3, .full, .f64, .f64⟩
+def cvB : ConvOp ℚ := ⟨fun m => [3, -1].getD m 0, 2, 3, .full, .f64, .f64⟩
+example : ∃ r, ConvOp.addSub false cvA cvB = .ok r := ⟨_, rfl⟩
+example : ∃ e, ConvOp.addSub false cvA { cvB with mode := .same, n := 4 } = .error e := ⟨_, rfl⟩
 
 end examples
 
